@@ -638,6 +638,11 @@ impl File {
         self.failed_runid = None;
         self.is_override = false;
         self.is_generated = false;
+        // The checksum describes output of ours that is no longer there.  If
+        // we kept it and later regenerated the same output, redo-stamp would
+        // call the target unchanged although its dependents have meanwhile
+        // been built from the user's file.
+        self.csum = String::new();
         Ok(())
     }
 
@@ -645,6 +650,8 @@ impl File {
         self.update_stamp(v, false)?;
         self.failed_runid = None;
         self.is_override = true;
+        // See set_static().
+        self.csum = String::new();
         Ok(())
     }
 
